@@ -27,6 +27,13 @@
 (* A raise unwinds every running handler (X with ok = FALSE, nothing is    *)
 (* stored for them).                                                       *)
 (*                                                                         *)
+(* Round 7: the hit test may also consult the cached value's Python        *)
+(* "nothingness": HitMode "notnone" (`table.get(key) is not None`) and     *)
+(* "truthy" (`if table.get(key):` / `table.get(key) or compute()`) take a  *)
+(* stored result that is None / false in a truth test (C05_Fresh!          *)
+(* LooksNothing) for a miss: the handler runs again for a key it already   *)
+(* computed.  Negative controls C05_Gen_Buggy_HitNotNone / _HitByTruth.    *)
+(*                                                                         *)
 (* Round 4 - the DISPATCH PATH.  A miss runs "the handler of the node with  *)
 (* the caller's extra arguments".  CachedMapper.__call__ reaches the        *)
 (* handler in two ways: directly (the node's own mapper_method) or through  *)
@@ -51,6 +58,8 @@ InScope(mk, e) == mk.scope = "all" \/ e.t = "CSE"
 NeProto(r) == IF r.rk = "obj" THEN r.eq ELSE "std"
 HitOutcome(hit, r) ==
     IF hit = "identity" THEN "hit"
+    ELSE IF hit = "notnone" THEN (IF LooksNone(r) THEN "miss" ELSE "hit")
+    ELSE IF hit = "truthy" THEN (IF LooksNothing(r) THEN "miss" ELSE "hit")
     ELSE CASE NeProto(r) = "alleq"       -> "miss"     \* __ne__ is falsy: looks absent
            [] NeProto(r) = "elementwise" -> "raise"    \* bool(non-boolean) raises
            [] OTHER                      -> "hit"
